@@ -23,6 +23,13 @@ open(p,'w').write('\n'.join(out))
 PY
 done
 git reset -q
+# a kept seeded hunk may have dropped the only use of an import a later fix added
+for try in 1 2 3; do
+  go build ./... 2>/tmp/rebase-build.log && break
+  l=$(grep -m1 'imported and not used' /tmp/rebase-build.log) || break
+  f=$(echo "$l" | cut -d: -f1); imp=$(echo "$l" | sed -E 's/.*"([^"]+)" imported and not used.*/\1/')
+  sed -i "\|^[[:space:]]*\"$imp\"$|d" "$f"
+done
 if go build ./... 2>/tmp/rebase-build.log; then
   git diff > /tmp/rebase-candidate.diff
   mkdir -p /tmp/rebase-cand; cp /tmp/rebase-candidate.diff /tmp/rebase-cand/patch.diff; cp $D/demo_test.go /tmp/rebase-cand/demo_test.go
